@@ -5,6 +5,7 @@ import (
 	"fmt"
 	"io"
 	"runtime"
+	"sort"
 	"strings"
 	"sync"
 	"testing"
@@ -23,6 +24,7 @@ type C13Step struct {
 	Op   string `json:"op"` // listen | async | sync | connect | inbound | closechan | peerclose | lclose | shutdown | release
 	I    int    `json:"i,omitempty"`
 	Hold bool   `json:"hold,omitempty"` // executor actions submitted during this step are held until released
+	Slow bool   `json:"slow,omitempty"` // async/sync: the factory's Listen parks until an "open" step (or the end)
 }
 
 type C13Case struct {
@@ -118,9 +120,9 @@ func genC13(t *rapid.T) C13Case {
 		after := i > shutdownAt
 		var ops []string
 		if after {
-			ops = []string{"release", "release", "inbound"}
+			ops = []string{"release", "release", "inbound", "open"}
 		} else {
-			ops = []string{"listen", "listen", "inbound", "inbound", "connect", "closechan", "peerclose", "lclose", "release"}
+			ops = []string{"listen", "listen", "inbound", "inbound", "connect", "closechan", "peerclose", "lclose", "release", "open"}
 			if nl >= 3 {
 				ops = ops[2:]
 			}
@@ -131,6 +133,7 @@ func genC13(t *rapid.T) C13Case {
 			nl++
 			st.Op = rapid.SampledFrom([]string{"async", "async", "async", "sync", "listen"}).Draw(t, "lmode")
 			st.Hold = rapid.Bool().Draw(t, "hold")
+			st.Slow = st.Op != "listen" && rapid.IntRange(0, 3).Draw(t, "slow") == 0
 		case "connect", "inbound":
 			st.Hold = rapid.IntRange(0, 2).Draw(t, "hold") == 0
 		}
@@ -208,6 +211,10 @@ func runC13(c C13Case) (out core.Outcome) {
 		case "listen", "async", "sync":
 			url := fmt.Sprintf("mock://host:%d", 1000+len(listeners))
 			l := &c13Listener{url: url}
+			if st.Slow {
+				factory.Gate(url)
+				cls.Add("slow-listen")
+			}
 			if pv := mock.Catch(func() { l.l = bs.Listen(url) }); pv != nil {
 				out.Inconclusive = fmt.Sprintf("%s: Listen panicked: %v", what, pv)
 				return
@@ -306,13 +313,27 @@ func runC13(c C13Case) (out core.Outcome) {
 			if ex.release(st.I) {
 				cls.Add("late-release")
 			}
+		case "open":
+			if urls := factory.GatedURLs(); len(urls) > 0 {
+				sort.Strings(urls)
+				factory.OpenGate(urls[st.I%len(urls)])
+			}
 		}
 		if !settle(what) {
 			return
 		}
 	}
-	// every action handed to the executor eventually runs
-	for ex.release(0) {
+	// every action handed to the executor eventually runs, every Listen eventually returns
+	for {
+		progressed := ex.release(0)
+		if urls := factory.GatedURLs(); len(urls) > 0 {
+			sort.Strings(urls)
+			factory.OpenGate(urls[0])
+			progressed = true
+		}
+		if !progressed {
+			break
+		}
 		if !settle("final release") {
 			return
 		}
